@@ -144,6 +144,7 @@ class TemporalEventsData(Block):
         return (
             self.format == other.format
             and self.start_time == other.start_time
+            and len(self.events) == len(other.events)
             and all(e1 == e2 for e1, e2 in zip(self.events, other.events))
         )
 
